@@ -314,7 +314,8 @@ CanTry(i) ==
 Step(i) == DeclBase(i) \/ DeclDerived(i) \/ NewScaled(i) \/ NewPlain(i) \/ NewTerm(i)
            \/ NewDerived(i) \/ DoOp(i)
 Next == \E i \in MenuItems : Step(i)
-Bound == TLCGet("level") <= MaxSteps
+\* the initial state has level 1: histories of at most MaxSteps steps
+Bound == TLCGet("level") <= MaxSteps + 1
 Spec == Init /\ [][Next]_vars
 
 ----------------------------------------------------------------------------
